@@ -96,7 +96,107 @@ fn timeout_error() -> String {
     "TIMEOUT".to_string()
 }
 
+/// One grid point: returns (observation summary, violations as (sub, message)).
+async fn timeout_case(c: Option<u64>, ok: bool, d: u64, p: u64, token: u32) -> (serde_json::Value, String, Vec<(String, String)>) {
+    let base = tokio::time::Instant::now();
+    let log = Rc::new(RefCell::new(Log::default()));
+    let svc = Svc { complete_at: c, ok, base, log: log.clone() };
+    let mut timed = TimeoutLayer::new(timeout_error, Duration::from_millis(d * UNIT_MS)).layer(svc);
+    let fut = timed.call(token); // issued at t=0
+    tokio::time::sleep(Duration::from_millis(p * UNIT_MS)).await; // caller polls first at t=p
+    let horizon = tokio::time::timeout(Duration::from_millis(100 * UNIT_MS), fut);
+    let mut horizon = Box::pin(horizon);
+    let r = std::panic::AssertUnwindSafe(&mut horizon).catch_unwind().await;
+    let t_r = now_units(base);
+    log.borrow_mut().result_seen = true;
+    tokio::task::yield_now().await;
+    drop(horizon); // the caller drops the finished future
+    let l = log.borrow().clone();
+    let see = d.max(p); // first poll that can see the deadline
+    let outcome = match &r {
+        Err(_) => "panic".to_string(),
+        Ok(Err(_)) => "hang".to_string(),
+        Ok(Ok(Ok(v))) => format!("ok:{v}"),
+        Ok(Ok(Err(e))) => format!("err:{e}"),
+    };
+    let obs = json!({"inner_completes_at": c, "inner_ok": ok, "duration": d, "first_poll": p, "outcome": outcome, "t_result": t_r, "inner_polls": l.polls, "inner_dropped_at": l.dropped_at});
+    let inner_expected = if ok { format!("ok:{token}") } else { format!("err:inner-{token}") };
+    let mut v: Vec<(String, String)> = vec![];
+    let mut fail = |what: &str| {
+        v.push((what.to_string(), format!("{what}: inner completes at {c:?} ({}), duration {d}, first poll at {p}: got {outcome} at t={t_r}; inner polls {:?}, dropped at {:?}", if ok { "Ok" } else { "Err" }, l.polls, l.dropped_at)));
+    };
+    if outcome == "panic" || outcome == "hang" {
+        fail("no result by the deadline (hang or panic)");
+        return (obs, outcome, v);
+    }
+    let inner_first = c.map(|c| c < d).unwrap_or(false);
+    let inner_allowed = c.map(|c| c <= see).unwrap_or(false);
+    if outcome == inner_expected {
+        if !inner_allowed {
+            fail("inner result returned although it had not resolved");
+        } else if t_r != c.unwrap().max(p) {
+            fail("inner result returned late");
+        }
+    } else if outcome == "err:TIMEOUT" {
+        if inner_first {
+            fail("timeout error although the inner service resolved first");
+        } else if t_r != see {
+            fail("timeout error not delivered at the deadline");
+        }
+    } else {
+        fail("result is neither the inner result unchanged nor the configured timeout error");
+    }
+    if t_r > see && !inner_first {
+        fail("resolved later than the configured duration");
+    }
+    if l.polled_after_drop_or_result {
+        fail("inner future polled after the request resolved");
+    }
+    if l.dropped_at != Some(t_r) {
+        fail("inner work not dropped when the timed-out request was dropped");
+    }
+    (obs, outcome, v)
+}
+
+fn case_sig(c: Option<u64>, d: u64, p: u64, what: &str) -> String {
+    let rel = match c { None => "never", Some(c) if c < d => "before", Some(c) if c == d => "at", _ => "after" };
+    format!("inner={rel} duration={} first-poll={} problem={what}", if d == 0 { "zero" } else { "finite" }, if p == 0 { "immediate" } else if p > d { "after-deadline" } else { "delayed" })
+}
+
+fn replay(path: &str) -> i32 {
+    let doc: serde_json::Value = serde_json::from_str(&std::fs::read_to_string(path).expect("replay file")).expect("json");
+    let rp = doc.get("replay").cloned().unwrap_or(doc);
+    if rp.get("engine").and_then(|x| x.as_str()) == Some("poolmc") {
+        return crate::poolmc::replay_file(path, "C19");
+    }
+    let c = rp.get("complete_at").and_then(|x| x.as_u64());
+    let ok = rp.get("ok").and_then(|x| x.as_bool()).unwrap_or(true);
+    let d = rp.get("duration").and_then(|x| x.as_u64()).unwrap_or(0);
+    let p = rp.get("first_poll").and_then(|x| x.as_u64()).unwrap_or(0);
+    let rt = tokio::runtime::Builder::new_current_thread().enable_time().start_paused(true).build().unwrap();
+    let (o1, _, v1) = rt.block_on(timeout_case(c, ok, d, p, 7));
+    let (o2, _, v2) = rt.block_on(timeout_case(c, ok, d, p, 7));
+    if o1 != o2 || v1 != v2 {
+        println!("MACHINERY-ERROR replay diverged");
+        return 2;
+    }
+    println!("{o1}");
+    if v1.is_empty() {
+        println!("replay holds");
+        0
+    } else {
+        for (_, m) in &v1 {
+            println!("  {m}");
+        }
+        println!("VIOLATION property=C19 replay={path}");
+        1
+    }
+}
+
 pub fn run(args: &Args) -> i32 {
+    if let Some(p) = &args.replay {
+        return replay(p);
+    }
     let mut run = Run::new("C19", args.tier, "model_checking");
     let rt = tokio::runtime::Builder::new_current_thread().enable_time().start_paused(true).build().unwrap();
     let completes: Vec<Option<u64>> = vec![Some(0), Some(1), Some(2), Some(3), Some(4), Some(6), None];
@@ -111,68 +211,13 @@ pub fn run(args: &Args) -> i32 {
                 for &d in &durations {
                     for &p in &first_polls {
                         evaluations += 1;
-                        let base = tokio::time::Instant::now();
-                        let log = Rc::new(RefCell::new(Log::default()));
-                        let svc = Svc { complete_at: c, ok, base, log: log.clone() };
-                        let mut timed = TimeoutLayer::new(timeout_error, Duration::from_millis(d * UNIT_MS)).layer(svc);
-                        let token = 1000 + evaluations as u32;
-                        let fut = timed.call(token); // issued at t=0
-                        tokio::time::sleep(Duration::from_millis(p * UNIT_MS)).await; // caller polls first at t=p
-                        let horizon = tokio::time::timeout(Duration::from_millis(100 * UNIT_MS), fut);
-                        let mut horizon = Box::pin(horizon);
-                        let r = std::panic::AssertUnwindSafe(&mut horizon).catch_unwind().await;
-                        let t_r = now_units(base);
-                        log.borrow_mut().result_seen = true;
-                        tokio::task::yield_now().await;
-                        drop(horizon); // the caller drops the finished future
-                        let l = log.borrow().clone();
-                        let see = d.max(p); // first poll that can see the deadline
-                        let outcome = match &r {
-                            Err(_) => "panic".to_string(),
-                            Ok(Err(_)) => "hang".to_string(),
-                            Ok(Ok(Ok(v))) => format!("ok:{v}"),
-                            Ok(Ok(Err(e))) => format!("err:{e}"),
-                        };
+                        let (obs, outcome, viols) = timeout_case(c, ok, d, p, 1000 + evaluations as u32).await;
                         classes.insert(format!("{}|{}|{}", outcome.split(':').next().unwrap(), outcome.contains("TIMEOUT"), c.map(|c| c.cmp(&d) as i8 + 1).unwrap_or(9)));
                         if samples.len() < 4 && evaluations % 67 == 3 {
-                            samples.push(json!({"inner_completes_at": c, "inner_ok": ok, "duration": d, "first_poll": p, "outcome": outcome, "t_result": t_r, "inner_polls": l.polls, "inner_dropped_at": l.dropped_at}));
+                            samples.push(obs);
                         }
-                        let inner_expected = if ok { format!("ok:{token}") } else { format!("err:inner-{token}") };
-                        let mut fail = |what: &str, run: &mut Run| {
-                            let rel = match c { None => "never", Some(c) if c < d => "before", Some(c) if c == d => "at", _ => "after" };
-                            run.violation(format!("inner={rel} duration={} first-poll={} problem={what}", if d == 0 { "zero" } else { "finite" }, if p == 0 { "immediate" } else if p > d { "after-deadline" } else { "delayed" }),
-                                format!("{what}: inner completes at {c:?} ({}), duration {d}, first poll at {p}: got {outcome} at t={t_r}; inner polls {:?}, dropped at {:?}", if ok { "Ok" } else { "Err" }, l.polls, l.dropped_at),
-                                json!({"engine":"c19","complete_at":c,"ok":ok,"duration":d,"first_poll":p}));
-                        };
-                        if outcome == "panic" || outcome == "hang" {
-                            fail("no result by the deadline (hang or panic)", &mut run);
-                            continue;
-                        }
-                        let inner_first = c.map(|c| c < d).unwrap_or(false);
-                        let inner_allowed = c.map(|c| c <= see).unwrap_or(false);
-                        if outcome == inner_expected {
-                            if !inner_allowed {
-                                fail("inner result returned although it had not resolved", &mut run);
-                            } else if t_r != c.unwrap().max(p) {
-                                fail("inner result returned late", &mut run);
-                            }
-                        } else if outcome == "err:TIMEOUT" {
-                            if inner_first {
-                                fail("timeout error although the inner service resolved first", &mut run);
-                            } else if t_r != see {
-                                fail("timeout error not delivered at the deadline", &mut run);
-                            }
-                        } else {
-                            fail("result is neither the inner result unchanged nor the configured timeout error", &mut run);
-                        }
-                        if t_r > see && !(inner_first) {
-                            fail("resolved later than the configured duration", &mut run);
-                        }
-                        if l.polled_after_drop_or_result {
-                            fail("inner future polled after the request resolved", &mut run);
-                        }
-                        if l.dropped_at != Some(t_r) {
-                            fail("inner work not dropped when the timed-out request was dropped", &mut run);
+                        for (what, msg) in viols {
+                            run.violation(case_sig(c, d, p, &what), msg, json!({"engine":"c19","complete_at":c,"ok":ok,"duration":d,"first_poll":p}));
                         }
                     }
                 }
